@@ -25,7 +25,7 @@ VARIANTS = [
     {"name": "R1 register_proxy_cap indices swapped again (D14)", "file": REG, "expect": "C16.R1",
      "old": "        for cap_type, cap_url in self.caps.getall(name, []):\n            if cap_type == CapType.PROXY_ONLY:\n                return cap_url",
      "new": "        for entry in self.caps.getall(name, []):\n            if entry[1] == CapType.PROXY_ONLY:\n                return entry[0]"},
-    {"name": "R1 register_proxy_cap returns the type of the existing cap", "file": REG, "expect": "C16.R1",
+    {"name": "R1 register_proxy_cap returns the type of the existing cap", "file": REG, "expect": "C16.R1,C16.R12",
      "old": "            if cap_type == CapType.PROXY_ONLY:\n                return cap_url\n        return None",
      "new": "            if cap_type == CapType.PROXY_ONLY:\n                return cap_type\n        return None"},
     {"name": "R1 cap_urls exposes position 0", "file": REG, "expect": "C16.R1",
@@ -104,9 +104,12 @@ VARIANTS = [
     {"name": "R3 index written from register_cap", "file": REG, "expect": "C16.R3",
      "old": "        self.caps.add(name, (cap_type, cap_url))\n        self._recalc_caps()",
      "new": "        self.caps.add(name, (cap_type, cap_url))\n        self._recalc_caps()\n        self._caps_url_lookup[cap_url] = (cap_type, name)"},
-    {"name": "R3 resolve_cap keeps iterating the index after rebuilding it", "file": REG, "expect": "C16.R3",
-     "old": "                    self._recalc_caps()\n                return name, cap_url, cap_type",
-     "new": "                    self._recalc_caps()\n                    continue\n                return name, cap_url, cap_type"},
+    {"name": "R3 resolve_cap keeps iterating the index after rebuilding it", "expect": "C16.R3",
+     "edits": [
+         {"file": REG, "old": "        for cap_url in sorted(self._caps_url_lookup.keys(), key=len, reverse=True):",
+          "new": "        for cap_url in self._caps_url_lookup.keys():"},
+         {"file": REG, "old": "                    self._recalc_caps()\n                return name, cap_url, cap_type",
+          "new": "                    self._recalc_caps()\n                    continue\n                return name, cap_url, cap_type"}]},
     # ---- R3 preserving
     {"name": "P R3 update_caps recalculates once after the loop", "file": REG, "expect": "silent",
      "old": "                self.caps.add(cap_name, (CapType.NORMAL, cap_url))\n                self._recalc_caps()\n",
